@@ -256,3 +256,42 @@ pub fn ast(args: &[&str]) -> String {
         Err(_) => "ERR".into(),
     }
 }
+
+
+/// CMPX <srchex>: the other public routes into the compiler (the two-step API that `lang::compile` itself uses):
+/// R1 `Prog::new_with_scope` + `Bin::compile_prog` with the returned scope + `Bin::serialize`;
+/// R2 the same `Prog` compiled a SECOND time against the scope the first compilation left behind;
+/// R3 the same `Prog` compiled against `Scope::default()` (no declarations);
+/// each answers `OK <imagehex>` or `ERR`; a panic anywhere gives `PANIC` for the whole case.
+pub fn cmpx(args: &[&str]) -> String {
+    if args.len() != 1 {
+        return "BADARG".into();
+    }
+    let src = match unhex(args[0]).and_then(|b| String::from_utf8(b).ok()) {
+        Some(s) => s,
+        None => return "NOTUTF8".into(),
+    };
+    fn show<E>(r: Result<Vec<u8>, E>) -> String {
+        match r {
+            Ok(b) => format!("OK {}", if b.is_empty() { "-".to_string() } else { hex(&b) }),
+            Err(_) => "ERR".to_string(),
+        }
+    }
+    match portus::lang::Prog::new_with_scope(&src) {
+        Err(_) => "R1 ERR | R2 ERR | R3 ERR".to_string(),
+        Ok((prog, mut scope)) => {
+            let c1 = portus::lang::Bin::compile_prog(&prog, &mut scope);
+            let first_ok = c1.is_ok();
+            let r1 = c1.and_then(|b| b.serialize());
+            // (after a failed compilation the scope is left half-updated: nothing is promised about it)
+            let r2 = if first_ok {
+                show(portus::lang::Bin::compile_prog(&prog, &mut scope).and_then(|b| b.serialize()))
+            } else {
+                "-".to_string()
+            };
+            let mut dflt = portus::lang::Scope::default();
+            let r3 = portus::lang::Bin::compile_prog(&prog, &mut dflt).and_then(|b| b.serialize());
+            format!("R1 {} | R2 {} | R3 {}", show(r1), r2, show(r3))
+        }
+    }
+}
